@@ -164,6 +164,34 @@ func Follow() int {
 			}(g)
 		}
 	}
+	// noisy: mempool traffic. The transactions of the coming blocks are offered to CheckTx while earlier blocks execute,
+	// as on a node (CometBFT keeps CheckTx out only while Commit runs: mempoolMu)
+	var mempoolMu sync.RWMutex
+	var curBlock atomic.Int64
+	var nCheck atomic.Int64
+	if v.Noisy {
+		wg.Add(1)
+		go func() {
+			defer wg.Done()
+			k := 0
+			for !stop.Load() {
+				j := int(curBlock.Load()) + 1 + k%3
+				k++
+				if j >= len(blocks) || len(blocks[j].Txs) == 0 {
+					runtime.Gosched()
+					continue
+				}
+				tx := blocks[j].Txs[k%len(blocks[j].Txs)]
+				mempoolMu.RLock()
+				func() {
+					defer func() { _ = recover() }()
+					_, _ = app.CheckTx(&abci.RequestCheckTx{Tx: tx, Type: abci.CheckTxType_New})
+				}()
+				mempoolMu.RUnlock()
+				nCheck.Add(1)
+			}
+		}()
+	}
 	// burst issues a few of the leader's queries synchronously at the given heights (0 = latest): this places queries
 	// at exact points of the block cycle, which the free-running goroutines only hit by chance
 	var burstQs []QuerySpec
@@ -200,6 +228,7 @@ func Follow() int {
 			_ = WriteTrace(os.Getenv("C01_TRACE"), traces)
 			os.Exit(17)
 		}
+		curBlock.Store(int64(i))
 		var res *abci.ResponseFinalizeBlock
 		var ferr error
 		func() {
@@ -217,8 +246,11 @@ func Follow() int {
 		if v.Noisy { // synchronous burst between FinalizeBlock and Commit: queries on the states of older heights
 			burst(req.Height-1, req.Height-2, 0)
 		}
-		if _, err := app.Commit(); err != nil {
-			traces[len(traces)-1].Err = "commit: " + err.Error()
+		mempoolMu.Lock()
+		_, cerr := app.Commit()
+		mempoolMu.Unlock()
+		if cerr != nil {
+			traces[len(traces)-1].Err = "commit: " + cerr.Error()
 			break
 		}
 		if v.Noisy { // ... and right after the commit
@@ -232,7 +264,7 @@ func Follow() int {
 		return 3
 	}
 	if v.Noisy {
-		_ = os.WriteFile(os.Getenv("C01_TRACE")+".queries", []byte(fmt.Sprint(nq.Load())), 0o644)
+		_ = os.WriteFile(os.Getenv("C01_TRACE")+".queries", []byte(fmt.Sprintf("%d %d", nq.Load(), nCheck.Load())), 0o644)
 	}
 	if v.LevelDB {
 		_ = db.Close()
